@@ -260,6 +260,16 @@ class Repo:
                         return r[1]
         raise AnalysisError(f"anchor vanished: function {qual}")
 
+    def is_func(self, binding, qual):
+        """the resolved binding (result of resolve_binding) is the function the package exports as `qual` — compared as
+        objects, so a function that was moved to another module and re-exported still counts"""
+        if not binding or binding[0] != "func":
+            return False
+        try:
+            return binding[1] is self.func(qual)
+        except AnalysisError:
+            return False
+
     def aliases_of(self, qualname):
         """other dotted names under which the package exports the function defined as `qualname` (re-exports through imports)"""
         if getattr(self, "_aliases", None) is None:
